@@ -54,6 +54,12 @@ def replay(col, case):
     expm = [float(fr(x)) for x in case["mean"]]
     if got is not None and not all(close(a, b) for a, b in zip(np.asarray(got).ravel(), expm)):
         col.violation("mean_quantile_score-wrong-value", dict(rep, expected=expm, observed=np.asarray(got).tolist()))
+    # a sample of exactly ONE value with three fractions: the mean score per fraction is that value's own score row
+    got = call("mean_quantile_score", scores.mean_quantile_score, y_tau[:1], obs[:1], taus)
+    col.count(1)
+    want1 = [float(fr(x)) for x in case["score"][0]]
+    if got is not None and (np.size(got) != 3 or not all(close(a, b) for a, b in zip(np.asarray(got).ravel(), want1))):
+        col.violation("mean_quantile_score-wrong-value-single-sample", dict(rep, expected=want1, observed=np.asarray(got).tolist()))
     # a sample of 5000 (the property names samples up to 10^4): the case's observations / estimates repeated and cut;
     # the mean score is the exact mean of the per-element scores TLC printed
     big = 5000
